@@ -53,6 +53,7 @@ type Val struct {
 	bindings []*Val
 	mapFrozen   bool   // the map held in this location never has its entries' objects modified (declared field invariant)
 	frozenIn    string // this pointer was read from a frozen registry: the presence term of that lookup
+	guardObj    string // the object whose guarded field this address is
 	sharedObj   string // this address lies inside an object of a `sharedconfig` type, outside its guarded fields: the object
 	mapDistinct bool // the map held in this location keeps one value object per key (declared field invariant)
 	mapNonNil bool  // the map held in this location stores only non-nil values (declared field invariant)
